@@ -143,20 +143,20 @@ fn with_form(text: &str, form: &[String], f: &mut dyn FnMut(&Path<'_>)) {
     let shared: std::sync::Arc<str> = std::sync::Arc::from(text);
     let value = Value::from(text);
     let base: Path = match form[0].as_str() {
-        "new" => Path::new(st).unwrap_or_else(|_| tool_error("valid text rejected by Path::new")),
+        "new" => Path::new(st).unwrap_or_else(|_| panic!("valid text rejected by Path::new: a valid path was rejected")),
         "new_raw" => Path::new_raw(st),
         "macro" => macro_paths().into_iter().find(|(t, _)| *t == text).map(|(_, p)| p)
             .unwrap_or_else(|| tool_error(&format!("no path! literal for {text}"))),
-        "new_ref" => Path::new_ref(text).unwrap_or_else(|_| tool_error("valid text rejected by Path::new_ref")),
+        "new_ref" => Path::new_ref(text).unwrap_or_else(|_| panic!("valid text rejected by Path::new_ref: a valid path was rejected")),
         "new_ref_raw" => Path::new_ref_raw(text),
-        "new_owned" => Path::new_owned(text).unwrap_or_else(|_| tool_error("valid text rejected by Path::new_owned")),
+        "new_owned" => Path::new_owned(text).unwrap_or_else(|_| panic!("valid text rejected by Path::new_owned: a valid path was rejected")),
         "new_owned_raw" => Path::new_owned_raw(text),
-        "cow_borrowed" => Path::new_cow_ref(Cow::Borrowed(text)).unwrap_or_else(|_| tool_error("valid text rejected")),
-        "cow_owned" => Path::new_cow_ref(Cow::Owned(text.to_string())).unwrap_or_else(|_| tool_error("valid text rejected")),
+        "cow_borrowed" => Path::new_cow_ref(Cow::Borrowed(text)).unwrap_or_else(|_| panic!("valid text rejected: a valid path was rejected")),
+        "cow_owned" => Path::new_cow_ref(Cow::Owned(text.to_string())).unwrap_or_else(|_| panic!("valid text rejected: a valid path was rejected")),
         "cow_borrowed_raw" => Path::new_cow_ref_raw(Cow::Borrowed(text)),
         "cow_owned_raw" => Path::new_cow_ref_raw(Cow::Owned(text.to_string())),
-        "str_shared" => Path::new_str(Str::new_shared(shared)).unwrap_or_else(|_| tool_error("valid text rejected")),
-        "from_value" => value.by_ref().cast::<Path>().unwrap_or_else(|| tool_error("valid text rejected by cast")),
+        "str_shared" => Path::new_str(Str::new_shared(shared)).unwrap_or_else(|_| panic!("valid text rejected: a valid path was rejected")),
+        "from_value" => value.by_ref().cast::<Path>().unwrap_or_else(|| panic!("cast::<Path>() rejected a valid path")),
         b => tool_error(&format!("unknown base form {b}")),
     };
     apply(base, &form[1..], f)
